@@ -172,7 +172,7 @@ fn pass<F: FnOnce(&mut vh::VShell, &mut Vec<(String, String)>)>(spec: &str, toks
 
 /// streams that may hang or abort are run in a forked child under a watchdog
 fn isolated(stream: &str) -> bool {
-    matches!(stream, "xenv" | "xall" | "plan" | "subst" | "xrange" | "head" | "plan1")
+    matches!(stream, "xenv" | "xall" | "plan" | "subst" | "xrange" | "head" | "plan1" | "bseq" | "aliasrt")
 }
 
 fn run_isolated(stream: &str, f: &[&str], timeout_ms: i32) -> String {
@@ -385,6 +385,49 @@ fn run_case(stream: &str, f: &[&str]) -> String {
                 Err(e) => format!("err|{}", hex(&e)),
             }
         }),
+        "bseq" => with_env(f[0], |sh| {
+            let mut outs: Vec<String> = vec![];
+            if f[1] != "[]" {
+                for hl in f[1].split(',') {
+                    let line = unhex(hl);
+                    if line.starts_with("use ") {
+                        let (mut t, _) = vh::parse_line(&line[4..]);
+                        vh::expand_alias(sh, &mut t);
+                        outs.push(format!("use|{}", toks_out(&t)));
+                        continue;
+                    }
+                    match vh::run_builtin_line(sh, &line) {
+                        Ok(Some(cr)) => {
+                            let mut ls: Vec<&str> = cr.stdout.split('\n').collect();
+                            ls.sort();
+                            outs.push(format!("{}|{}|{}", cr.status, hex(&ls.join("\n")), hex(&cr.stderr)));
+                        }
+                        Ok(None) => outs.push("not-builtin".to_string()),
+                        Err(e) => outs.push(format!("err|{}", hex(&e))),
+                    }
+                }
+            }
+            format!("{}#{}", outs.join(";"), pairs_out(&vh::alias_table(sh)))
+        }),
+        "aliasrt" => {
+            let lines: Vec<String> = with_env(f[0], |sh| match vh::run_builtin_line(sh, "alias") {
+                Ok(Some(cr)) => cr.stdout,
+                _ => String::new(),
+            })
+            .split('\n')
+            .map(|x| x.to_string())
+            .collect();
+            let mut sorted = lines.clone();
+            sorted.sort();
+            with_env("-", |sh| {
+                for l in &sorted {
+                    if !l.is_empty() {
+                        let _ = vh::run_builtin_line(sh, l);
+                    }
+                }
+                pairs_out(&vh::alias_table(sh))
+            })
+        }
         "globq" => match vh::glob_query(&unhex(f[0])) {
             Some(v) => if v.is_empty() { "[]".to_string() } else { v.iter().map(|x| hex(x)).collect::<Vec<_>>().join("/") },
             None => "!".to_string(),
